@@ -540,6 +540,9 @@ func (s *sender) runVector(v jmap, inst int, seed int64, r *result) {
 			level = "note"
 		}
 		key := "C07:" + fn + ":panic"
+		if jint(exp, "n") == 0 && fn == "ICMP6SendRouterAdvertisement" {
+			key = "C07:KF_ICMP6SendTooBigPanics" // the defect fixed by 1b8de3f, should it return
+		}
 		if jstr(mech, "err") == "panic" { // a labelled deviation of the mechanism model
 			for _, x := range jlist(mech, "kf") {
 				key = "C07:" + jstr(x.(map[string]interface{}), "label")
@@ -555,6 +558,9 @@ func (s *sender) runVector(v jmap, inst int, seed int64, r *result) {
 		}
 		if ee := jstr(exp, "err"); ee != "any" && ee != out.err {
 			r.add("prop", "C07:"+fn+":error", "%s returned %s, expected %s", fn, out.err, ee)
+		}
+		if me := jstr(mech, "err"); me != "any" && me != out.err {
+			r.add("mech", "send."+fn+".err", "returned %s, model %s", out.err, me)
 		}
 		return
 	}
